@@ -116,6 +116,10 @@ def run(ctx, rep):
     rep.instances[before:] = keep
     rep.floors.pop("R6.3", None)
     rep.floor("R8.3", 1)
+    # "each written packet leaves as exactly one datagram holding exactly its frame": over UDP every transport call is one
+    # datagram, so the connection's write must make exactly one complete-write call with exactly the bytes of one encode
+    # (C06's R6.1 / R6.2, part of this property as well)
+    c06.write_rules(ctx, rep)
 
 
 APPEND = re.compile(r"BytesMut::(extend_from_slice|put_slice|put|reserve)$|Extend::extend$|BufMut::(put_slice|put)$")
